@@ -94,6 +94,8 @@ def _gen(which):
 
 R.extern["hypothesis_graphql.strategies.queries"] = _gen("queries")
 R.extern["hypothesis_graphql.strategies.mutations"] = _gen("mutations")
+# E6 hypothesis-graphql: from_schema(schema, fields=...) draws queries AND mutations - `fields` is looked up on BOTH root types
+R.extern["hypothesis_graphql.strategies.from_schema"] = _gen("from_schema (queries | mutations)")
 R.extern["graphql.print_ast"] = lambda it, a, k: a[0]
 R.contract("schemathesis.hooks:apply_to_all_dispatchers", args={"operation": Opq("Any"), "context": Opq("Any"), "hooks": Opq("Any"), "strategy": Opq("Any"), "container": Str},
            returns=lambda it, env: env["strategy"], trusted=True, note="C19 contracts: hooks of all scopes are applied; identity when no hook is registered")
